@@ -14,7 +14,9 @@ import numpy as np
 from synkit.CRN.Hypergraph.hypergraph import CRNHyperGraph
 from synkit.CRN.Hypergraph.rxn import RXNSide
 
-from ..kernel import Sim, Violation, rng_for
+from ..kernel import Sim, Violation, rng_for, derive
+from ..seams import Seams, GCControl
+from ..executor import World
 
 PROP = "C15"
 N_NETS = 3
@@ -25,7 +27,7 @@ TIERS = {
 }
 STEP_CAP = 200000
 SHRINK_BUDGET = 600
-FAULT_OPS: Tuple[str, ...] = ()
+FAULT_OPS: Tuple[str, ...] = ("alloc", "gc")
 PROBES = [
     "generated_id_equals_existing_explicit_id_form",
     "merge_then_edit_either_side",
@@ -38,7 +40,8 @@ PROBES = [
 ]
 REAL = ["synkit.CRN.Hypergraph.hypergraph.CRNHyperGraph (all public mutators, incidence_matrix)",
         "synkit.CRN.Hypergraph.rxn.RXNSide", "synkit.CRN.Hypergraph.hyperedge.HyperEdge"]
-STUB: List[str] = []
+STUB: List[str] = ["builtin id() inside synkit modules -> SimAllocator + scheduled cyclic GC (no id() call exists on the unchanged tree; "
+                   "the seam is there so that a change introducing an identity-keyed cache is simulated)"]
 ASSUMPTIONS = [
     "operations that legitimately fail (duplicate explicit id, empty reaction, unknown species/edge) leave reactions and species unchanged; id counters may advance",
     "generated ids are not predicted: any id not already in use is accepted",
@@ -91,7 +94,12 @@ def generate(seed: int, tier: str = "quick") -> Dict[str, Any]:
     n_nets = rng.choice([1, 2, 3])
     pop = [k for k in kinds for _ in range(w[k])]
     ops: List[Dict[str, Any]] = []
+    if rng.random() < 0.5:
+        ops.append({"op": "alloc", "p_reuse": rng.choice([0.3, 0.6, 1.0, 1.0]), "pick": rng.choice(["lifo", "fifo", "rand"]),
+                    "gc_p": rng.choice([0.05, 0.3, 0.6]), "s": derive(seed, "alloc")})
     for i in range(n_ops):
+        if rng.random() < 0.03:
+            ops.append({"op": "gc"})
         k = rng.choice(pop)
         net = rng.randrange(n_nets)
         op: Dict[str, Any] = {"op": k, "net": net}
@@ -304,6 +312,17 @@ _LOOKS_GENERATED = {"r_1": "r", "r_2": "r", "r_3": "r", "R1_1": "R1", "R1_2": "R
 
 
 def execute(case: Dict[str, Any], sim: Sim) -> None:
+    world = World(sim)
+    seams = Seams()
+    with GCControl():
+        seams.install(id_fn=world.id_fn())
+        try:
+            _run(case, sim, world)
+        finally:
+            seams.uninstall()
+
+
+def _run(case: Dict[str, Any], sim: Sim, world: World) -> None:
     cfg = case["cfg"]
     nets: List[CRNHyperGraph] = [CRNHyperGraph() for _ in range(N_NETS)]
     models: List[Model] = [Model() for _ in range(N_NETS)]
@@ -364,6 +383,15 @@ def execute(case: Dict[str, Any], sim: Sim) -> None:
     for step, op in enumerate(case["ops"]):
         sim.step()
         k = op["op"]
+        if k == "alloc":
+            world.reseed(op.get("s", 0))
+            world.set_alloc_policy(op["p_reuse"], op["pick"], op["gc_p"])
+            sim.event("alloc", [op["p_reuse"], op["pick"], op["gc_p"]])
+            continue
+        if k == "gc":
+            world.main_alloc.collect()
+            sim.event("gc", None)
+            continue
         i = op["net"] % N_NETS
         H, M = nets[i], models[i]
         outcome = "ok"
@@ -611,6 +639,9 @@ def execute(case: Dict[str, Any], sim: Sim) -> None:
 def simplify(case: Dict[str, Any]) -> Iterable[Dict[str, Any]]:
     ops = case["ops"]
     for idx, op in enumerate(ops):
+        if op["op"] in ("alloc", "gc"):
+            continue
+
         def repl(new_op: Dict[str, Any]) -> Dict[str, Any]:
             c = copy.deepcopy(case)
             c["ops"][idx] = new_op
@@ -645,5 +676,4 @@ def simplify(case: Dict[str, Any]) -> Iterable[Dict[str, Any]]:
             n = copy.deepcopy(op)
             n["prune"] = True
             yield repl(n)
-        if op.get("net", 0) != 0 and op["op"] not in ("merge", "copy"):
-            pass
+
